@@ -4,6 +4,9 @@ import json
 import os
 
 VERIF = os.path.dirname(os.path.dirname(os.path.abspath(__file__)))
+import sys
+sys.path.insert(0, VERIF)
+from krpsa.rules.premises import PREMISES  # noqa: E402
 
 TB = ("Trusted: rustc MIR/callee resolution for the pinned nightly; the krp-facts extractor and krpsa engine "
       "(validated by seeded mutants and silent variants, not verified); CosmWasm revert-on-error semantics; library "
@@ -175,7 +178,9 @@ CLAIMS = {
              "entry points (hub bond/unbond/convert/withdraw/slashing, every message of both tokens, reward claim and mirroring) contains "
              "no swap/oracle contract, no dispatcher swap/dispatch, no reward swap, and only edges of the allowed table - a new dependency "
              "is reported on every run, which no unit test against mocks can notice. A positive control shows UpdateGlobalIndex does reach "
-             "swap and oracle. NOT decided: 'can always exit from every reachable state' (liveness; depends on arithmetic over histories).",
+             "swap and oracle. NOT decided: 'can always exit from every reachable state' (liveness; depends on arithmetic over histories)."
+             " Also, a structural necessary condition of the exit half: no division reachable from an exit handler can panic - every divisor is a "
+             "non-zero constant, an exchange rate the code keeps non-zero by construction, or a value observed non-zero on every path to the call.",
         technique="cross-contract call/query graph closure over MIR-extracted message constructions",
         ref="6/C09"),
     "C19": dict(
@@ -204,7 +209,12 @@ def main():
     for p in props:
         pid = p["id"]
         if pid in CLAIMS:
-            c = CLAIMS[pid]
+            c = dict(CLAIMS[pid])
+            prem = PREMISES.get(pid)
+            if prem:
+                c["text"] += " Shared premises (DESIGN 11.7): this check also evaluates " + "; ".join(
+                    "%s (anchored in %s)" % (", ".join(rules), src) for (src, rules, why) in prem) + \
+                    " - structural facts its own argument rests on; it reports when one of them fails."
             checks.append({
                 "property_id": pid,
                 "quick_cmd": "./check %s --tier quick" % pid,
